@@ -4,7 +4,7 @@ import ast
 from engine.index import norm, walk_own
 from engine.cfg import cfg_of
 from engine.defuse import defuse_of
-from .common import calls_named
+from .common import calls_named, before
 
 EXPLANATION = (
     "Static rule on http_server.path_join_safe. Decides: (R1) every normal return is dominated by a containment guard between the "
@@ -168,7 +168,7 @@ def r1(ctx):
             absg = [n for n in walk_own(fi.node) if isinstance(n, ast.If) and any(isinstance(s, ast.Raise) for s in n.body) and
                     ("os.path.isabs(%s)" % name_param in norm(n.test) or "%s.startswith('/')" % name_param in norm(n.test))]
             strip = [n for n in walk_own(fi.node) if isinstance(n, ast.Assign) and norm(n.targets[0]) == name_param and ".lstrip('/')" in norm(n.value)]
-            if joins and dot and (absg or strip) and all(x.lineno < joins[0].lineno for x in dot + absg + strip):
+            if joins and dot and (absg or strip) and all(before(fi, x, joins[0]) for x in dot + absg + strip):
                 ok = True
                 ctx.holds("C17.R1", fi, "dot-component guard and absolute-name guard dominate the join")
         if not ok:
@@ -198,7 +198,7 @@ def r3(ctx):
            ("%s.replace('\\\\', '/')" % name_param,)]
     dot = [n for n in walk_own(fi.node) if isinstance(n, ast.If) and "'..' in" in norm(n.test) and any(isinstance(s, ast.Raise) for s in n.body)]
     joins = calls_named(fi, "join")
-    ok = len(rep) == 1 and (not dot or rep[0].lineno < dot[0].lineno) and bool(joins) and rep[0].lineno < joins[0].lineno
+    ok = len(rep) == 1 and (not dot or before(fi, rep[0], dot[0])) and bool(joins) and before(fi, rep[0], joins[0])
     ctx.check(ok, "C17.R3", fi, "backslashes are replaced by '/' before the component test and the join", witness=[norm(r) for r in rep])
     if dot:
         parts = [n for n in walk_own(fi.node) if isinstance(n, ast.Assign) and norm(n.targets[0]) == "parts"]
